@@ -295,6 +295,19 @@ def run(chk):
     for cls, idx, cont, eq, roles, fns in cc.member_cursors(by_cls):
         n_cursors += 1
         chk.info(r_cu, "member cursor %s::%s into %s: advance=%s fetch=%s at-end=%s%s" % (cls, idx, cont, sorted(roles["advance"]), sorted(roles["fetch"]), sorted(roles["atend"]), " (end tested with equality)" if eq else ""))
+        # assumption behind the token facts: fetching at the end yields the `end` token (so token.type != end <=> in bounds)
+        for ff in fns:
+            if ff["n"] in roles["fetch"] or ff["n"] in roles["advance"]:
+                gives_end = False
+                for n in walk_fn(ff):
+                    if n["k"] == "If":
+                        c_txt = show(n["cond"])
+                        at_end = (idx in c_txt and cont in c_txt and ("==" in c_txt or ">=" in c_txt)) or any(a_ + "()" in c_txt for a_ in roles["atend"])
+                        if at_end and any(x["k"] == "Return" and x.get("e") is not None and any(y["k"] == "Ref" and y.get("d") == "Enum" and y["n"] == "end" for y in walk(x["e"])) for x in walk(n["then"])):
+                            gives_end = True
+                fetches_directly = any(cc.subscript(n) for n in walk_fn(ff))
+                if fetches_directly and not gives_end:
+                    chk.fail_broken("C20.cursor: %s::%s reads %s[%s] but does not return the `end` token under an at-end test: the token-type facts of the analysis do not apply" % (cls, ff["n"], cont, idx))
         for f, an in cc.analyse_member(cls, idx, cont, eq, roles, fns):
             for kind, l, text, ok in an.instances:
                 chk.instance(r_cu, "%s:%s@%d:%s" % (f["q"], idx, l, kind), sample=dict(function=f["q"], cursor=idx, container=cont, event=kind, expr=text, in_bounds_known=bool(ok), end_tested_with_equality=eq))
